@@ -79,6 +79,13 @@ def sequencing_runs(tier, seed, tail):
     return []
 
 
+def oneway_two_instances(tier, seed, tail):
+    """One-way glitches between 2 instances (family of C01): also the deterministic input of known finding F2 (a
+    non-Master that re-handshakes its Master is parked in ELECTION)."""
+    import c01
+    return c01.oneway_scenarios(tier, seed, tail, only2=True)
+
+
 def main(tier, seed, replay=None):
     if replay:
         import json
@@ -112,6 +119,6 @@ def main(tier, seed, replay=None):
         rnd += [cl.Config(n=3, crash=2, restart=2, cut=1, core=(1, 2), sync=('CORE', 'TIMEOUT'), fail='RESYNC')]
     return cc.run('C08', tier, seed, [], TERMINAL, e1, ['TerminalC08', 'NoRefusedForever'], [], sim, rnd,
                   n_beh=48 if q else 400, beh_depth=150, n_rnd=40 if q else 400, rnd_steps=250,
-                  e1_timeout=600 if q else 2400, inject=False, extra_scenarios=[conflict_scenarios, sequencing_runs],
+                  e1_timeout=600 if q else 2400, inject=False, extra_scenarios=[conflict_scenarios, sequencing_runs, oneway_two_instances],
                   notes=['start/stop jobs are abstracted in Cluster.tla (the Master may be held in DISTRIBUTION); '
                          'job termination itself is C10'])
